@@ -353,10 +353,10 @@ impl crate::render::TextDecorator for KDec {
         "**".to_string()
     }
     fn decorate_strikeout_start(&self) -> (String, ()) {
-        ("".to_string(), ())
+        ("~~".to_string(), ())
     }
     fn decorate_strikeout_end(&self) -> String {
-        "".to_string()
+        "~~".to_string()
     }
     fn decorate_code_start(&self) -> (String, ()) {
         ("`".to_string(), ())
